@@ -455,3 +455,96 @@ Theorem C11_history_messages_build : forall sty mem h b c argv,
   /\ err_of (fst (fst (parse_mut (xrun c h) argv))) = err_of (fst (fst (parse_mut c argv))).
 Proof. exact history_messages_build. Qed.
 Print Assumptions C11_history_messages_build.
+
+(** ---- round 5: the recorded finding C11-flatten-help-subcommand-shape, stated on the help model (C12's
+    Help/HelpFlatten.v: [Command::flatten_help], [Command::build]; Help/HelpFlattenShape.v).  Names are qualified: the
+    help model is required, not imported.
+
+    [_check_help_and_version(expand_help_tree)] builds the generated [help] subcommand of a level in one of two shapes:
+    lazily ([_build_self(false)]: the parser's descent, [render_help]) with the argument [[COMMAND]...], or expanded
+    ([build()], which the flatten branch of [write_help_usage] calls on the clone) with copies of the subcommand trees.
+    A definition the parser has entered keeps the lazy shape of that level; a fresh one gets the expanded shape when an
+    ancestor's flattened help builds it.  [h_build_bin_names (S f) (h_set_names bin mid (h_build_recursive (S f) h))] is
+    what [build()] makes of the subcommand [h] of a built level with bin name [bin] and mid string [mid]. ---- *)
+From ClapModel Require Help.UsageModel Help.HelpFlatten Help.HelpFlattenShape Help.HelpFlattenLevel.
+
+(** equal when [disable_help_subcommand] is set (or the level has no subcommands, or is built already): the two
+    builds of the level are the same record, so every rendering of every definition agrees *)
+Theorem C11_flatten_help_shape_disabled : forall c : UsageModel.hcmd,
+  HelpFlattenShape.help_sub_off c = true -> HelpFlatten.h_build_self_x false c = HelpFlatten.h_build_self_x true c.
+Proof. exact HelpFlattenShape.shape_disabled. Qed.
+Print Assumptions C11_flatten_help_shape_disabled.
+
+(** the lazily built shape in the built clone: not hidden, and its usage line is [name; "[COMMAND]..."] *)
+Theorem C11_flatten_help_shape_lazy_line : forall f p bin t,
+  exists h', HelpFlatten.h_build_bin_names (S f)
+               (HelpFlatten.h_set_names bin (32%N :: t) (HelpFlatten.h_build_recursive (S f) (UsageModel.h_help_subcommand p))) = Some h'
+    /\ UsageModel.hc_hide h' = false /\ UsageModel.hc_flatten h' = false /\ UsageModel.hc_name h' = UsageModel.s_help
+    /\ UsageModel.usage_pieces h' = Some [bin ++ (32%N :: t) ++ UsageModel.s_help; HelpFlattenShape.s_cmd_lazy].
+Proof. exact HelpFlattenShape.lazy_help_line. Qed.
+Print Assumptions C11_flatten_help_shape_lazy_line.
+
+(** the expanded shape in the built clone: not hidden, and its usage line is [name; "[COMMAND]"] -- the second piece
+    iff the level has a visible subcommand, which a flattened level has *)
+Theorem C11_flatten_help_shape_expanded_line : forall f p bin t he',
+  HelpFlatten.h_build_bin_names (S f)
+    (HelpFlatten.h_set_names bin (32%N :: t) (HelpFlatten.h_build_recursive (S f) (HelpFlatten.h_help_subcommand_expanded p))) = Some he' ->
+  UsageModel.hc_hide he' = false /\ UsageModel.hc_flatten he' = false /\ UsageModel.hc_name he' = UsageModel.s_help
+  /\ UsageModel.usage_pieces he'
+     = Some ([bin ++ (32%N :: t) ++ UsageModel.s_help]
+             ++ (if existsb HelpFlattenShape.vis_pred (UsageModel.hc_subs p) then [HelpFlattenShape.s_cmd_exp] else [])).
+Proof. exact HelpFlattenShape.exp_help_line. Qed.
+Print Assumptions C11_flatten_help_shape_expanded_line.
+
+(** non-vacuity of the three classes *)
+Theorem C11_flatten_help_shape_satisfiable :
+  (HelpFlattenShape.help_sub_off HelpFlattenShape.sh_off = true /\ UsageModel.hc_built HelpFlattenShape.sh_off = false
+   /\ is_nil (UsageModel.hc_subs HelpFlattenShape.sh_off) = false
+   /\ HelpFlatten.flat_cond (HelpFlatten.h_build_self_x false HelpFlattenShape.sh_off) = true)
+  /\ HelpFlattenShape.help_sub_off HelpFlattenShape.sh_on = false
+  /\ (exists he', HelpFlatten.h_build_bin_names 3 (HelpFlatten.h_set_names [112%N] [32%N]
+                    (HelpFlatten.h_build_recursive 3 (HelpFlatten.h_help_subcommand_expanded HelpFlattenShape.sh_on))) = Some he'
+                  /\ UsageModel.usage_pieces he' = Some [[112%N; 32%N] ++ UsageModel.s_help; HelpFlattenShape.s_cmd_exp])
+  /\ (exists hl', HelpFlatten.h_build_bin_names 3 (HelpFlatten.h_set_names [112%N] [32%N]
+                    (HelpFlatten.h_build_recursive 3 (UsageModel.h_help_subcommand HelpFlattenShape.sh_on))) = Some hl'
+                  /\ UsageModel.usage_pieces hl' = Some [[112%N; 32%N] ++ UsageModel.s_help; HelpFlattenShape.s_cmd_lazy]).
+Proof. exact (conj HelpFlattenShape.shape_disabled_satisfiable HelpFlattenShape.shape_lines_satisfiable). Qed.
+Print Assumptions C11_flatten_help_shape_satisfiable.
+
+(** different otherwise, in exactly one place: the lazy and the eager build of an unbuilt level whose help subcommand is
+    not disabled are the same record up to the LAST subcommand, the generated [help] in its two shapes *)
+Theorem C11_flatten_help_shape_builds : forall c : UsageModel.hcmd, HelpFlattenShape.help_sub_off c = false ->
+  exists P S0 A,
+    HelpFlatten.h_build_self_x false c = HelpFlattenLevel.mk_level P (S0 ++ [UsageModel.h_help_subcommand P]) A
+    /\ HelpFlatten.h_build_self_x true c = HelpFlattenLevel.mk_level P (S0 ++ [HelpFlatten.h_help_subcommand_expanded P]) A
+    /\ map HelpFlattenShape.nh S0 = map HelpFlattenShape.nh (UsageModel.hc_subs P).
+Proof. exact HelpFlattenLevel.shape_builds. Qed.
+Print Assumptions C11_flatten_help_shape_builds.
+
+(** the finding, exactly: for an unbuilt level [c] whose help subcommand is not disabled, flattened (the setting and a
+    visible subcommand), the usage blocks of its two builds -- lazy: the parser entered the level earlier; eager: built
+    for the rendering -- are the SAME lines followed by the line of the generated [help] subcommand, which reads
+    [.. help "[COMMAND]..."] in the first and [.. help "[COMMAND]"] in the second.  The classifier of vp/props/c11.py
+    ([flatten_help_shape]) normalises exactly this difference. *)
+Theorem C11_flatten_help_shape_level : forall f (c : UsageModel.hcmd) ll le,
+  HelpFlattenShape.help_sub_off c = false ->
+  HelpFlatten.flat_cond (HelpFlatten.h_build_self_x false c) = true ->
+  HelpFlatten.usage_lines (S f) (HelpFlatten.h_build_self_x false c) = Some ll ->
+  HelpFlatten.usage_lines (S f) (HelpFlatten.h_build_self_x true c) = Some le ->
+  exists common mid, HelpFlatten.h_mid_string (HelpFlatten.h_build_self_x false c) = Some mid
+    /\ ll = common ++ [[UsageModel.bin_name_fallback (HelpFlatten.h_build_self_x false c) ++ mid ++ UsageModel.s_help; HelpFlattenShape.s_cmd_lazy]]
+    /\ le = common ++ [[UsageModel.bin_name_fallback (HelpFlatten.h_build_self_x false c) ++ mid ++ UsageModel.s_help; HelpFlattenShape.s_cmd_exp]].
+Proof. exact HelpFlattenLevel.flatten_help_shape_level. Qed.
+Print Assumptions C11_flatten_help_shape_level.
+
+Theorem C11_flatten_help_shape_level_satisfiable :
+  HelpFlattenShape.help_sub_off HelpFlattenShape.sh_on = false
+  /\ HelpFlatten.flat_cond (HelpFlatten.h_build_self_x false HelpFlattenShape.sh_on) = true
+  /\ option_map (map HelpFlatten.line_text) (HelpFlatten.usage_lines 2 (HelpFlatten.h_build_self_x false HelpFlattenShape.sh_on))
+     = Some [[112%N]; [112%N; 32%N; 97%N];
+             [112%N; 32%N] ++ UsageModel.s_help ++ [32%N] ++ HelpFlattenShape.s_cmd_lazy]
+  /\ option_map (map HelpFlatten.line_text) (HelpFlatten.usage_lines 2 (HelpFlatten.h_build_self_x true HelpFlattenShape.sh_on))
+     = Some [[112%N]; [112%N; 32%N; 97%N];
+             [112%N; 32%N] ++ UsageModel.s_help ++ [32%N] ++ HelpFlattenShape.s_cmd_exp].
+Proof. exact HelpFlattenLevel.shape_level_satisfiable. Qed.
+Print Assumptions C11_flatten_help_shape_level_satisfiable.
